@@ -51,6 +51,6 @@ package monoid
 //
 //@ lemma mergeSliceAssocElements[T any](a, b, c []T, i int)
 //@   prop C11
-//@   option tier=thorough timeout=120
+//@   option tier=manual timeout=120
 //@   ensures 0 <= i && i < len(a)+len(b)+len(c) ==> Eq(MergeSlice[T]().Combine(MergeSlice[T]().Combine(a, b), c)[i], MergeSlice[T]().Combine(a, MergeSlice[T]().Combine(b, c))[i])
 //@   tag assocElements
